@@ -39,6 +39,12 @@ func (wu *WindowUpdate) Deserialize(fr *FrameHeader) error {
 		return ErrMissingBytes
 	}
 
+	// https://httpwg.org/specs/rfc7540.html#rfc.section.6.9
+	if len(fr.payload) != 4 {
+		wu.increment = 0
+		return NewGoAwayError(FrameSizeError, "WINDOW_UPDATE payload must be 4 bytes")
+	}
+
 	wu.increment = int(http2utils.BytesToUint32(fr.payload) & (1<<31 - 1))
 
 	return nil
